@@ -371,11 +371,11 @@ func declaredWithin(o types.Object, n ast.Node) bool {
 
 // mapRangeExceptions: loops that are order-insensitive for a reason the shape rule cannot see.
 var mapRangeExceptions = map[string]string{
-	"soymsg.setPlaceholderNames#range(nameToRepNodes)": "step 3: stores the name under the representative node; nameToRepNodes holds each node under exactly one name (step 2 inserts a node once), so keys never collide",
-	"soymsg.setPlaceholderNames#range(nodeToName)": "step 4: assigns each node's own field (the nodes are distinct map keys); the default arm is an unreachable internal check, since phNodes yields only the two node kinds handled",
-	"soyjs.state.nodeFromValue#range(val)":  "stores under the range key; the only raise in the callee (undefined value) has a constant message and cannot occur for global values, which are evaluated literals",
-	"parse.itemType.String#range(builtinIdents)":      "returns the first spelling found: only itemBool has two spellings (true/false) and String() is reached only from expect(), whose callers pass constant kinds none of which is itemBool, so no output depends on it",
-	"parse.itemType.String#range(arithmeticItemsBySymbol)":      "second table of the same lookup: every kind has one spelling in it",
+	"soymsg.setPlaceholderNames#range(nameToRepNodes)":     "step 3: stores the name under the representative node; nameToRepNodes holds each node under exactly one name (step 2 inserts a node once), so keys never collide",
+	"soymsg.setPlaceholderNames#range(nodeToName)":         "step 4: assigns each node's own field (the nodes are distinct map keys); the default arm is an unreachable internal check, since phNodes yields only the two node kinds handled",
+	"soyjs.state.nodeFromValue#range(val)":                 "stores under the range key; the only raise in the callee (undefined value) has a constant message and cannot occur for global values, which are evaluated literals",
+	"parse.itemType.String#range(builtinIdents)":           "returns the first spelling found: only itemBool has two spellings (true/false) and String() is reached only from expect(), whose callers pass constant kinds none of which is itemBool, so no output depends on it",
+	"parse.itemType.String#range(arithmeticItemsBySymbol)": "second table of the same lookup: every kind has one spelling in it",
 }
 
 // runMapOrder applies K6 to the declared functions reachable from the entries.
@@ -411,7 +411,9 @@ func runMapOrder(c *Ctx, rule string, entries []*ssa.Function, extraDecl func(re
 			}
 		}
 	}
-	sort.Slice(decls, func(i, j int) bool { return c.declKey(decls[i].rel, decls[i].fd) < c.declKey(decls[j].rel, decls[j].fd) })
+	sort.Slice(decls, func(i, j int) bool {
+		return c.declKey(decls[i].rel, decls[i].fd) < c.declKey(decls[j].rel, decls[j].fd)
+	})
 	for _, d := range decls {
 		nfuncs++
 		c.seen(c.declKey(d.rel, d.fd))
